@@ -59,9 +59,9 @@ func OK(nontrivial bool) *Outcome { return &Outcome{Nontrivial: nontrivial} }
 
 // Spec describes one check.
 type Spec struct {
-	ID         string // property id, e.g. "C08"
-	Level      string // evidence level
-	Rule       string // how cases are generated and what makes one non-trivial
+	ID          string // property id, e.g. "C08"
+	Level       string // evidence level
+	Rule        string // how cases are generated and what makes one non-trivial
 	Assumptions []string
 	// Run enumerates all cases for t.Tier() in a deterministic order.
 	Run func(t *T)
@@ -84,15 +84,15 @@ type T struct {
 	skipKeys  map[string]bool
 	deadline  time.Time
 
-	out        *bufio.Writer
-	seen       map[uint64]struct{}
-	res        workerResult
-	lastFlush  time.Time
-	lastTick   time.Time
-	seq        int64
-	stopped    bool
-	mu         sync.Mutex
-	replayHit  bool
+	out       *bufio.Writer
+	seen      map[uint64]struct{}
+	res       workerResult
+	lastFlush time.Time
+	lastTick  time.Time
+	seq       int64
+	stopped   bool
+	mu        sync.Mutex
+	replayHit bool
 }
 
 type violation struct {
@@ -103,22 +103,22 @@ type violation struct {
 }
 
 type workerResult struct {
-	Evaluations int64            `json:"evaluations"`
-	Nontrivial  int64            `json:"nontrivial"`
-	Classes     map[string]int64 `json:"classes"`
-	Counters    map[string]int64 `json:"counters"`
-	Known       map[string]int64 `json:"known"`
+	Evaluations int64             `json:"evaluations"`
+	Nontrivial  int64             `json:"nontrivial"`
+	Classes     map[string]int64  `json:"classes"`
+	Counters    map[string]int64  `json:"counters"`
+	Known       map[string]int64  `json:"known"`
 	KnownEx     map[string]string `json:"known_ex"`
-	Violations  []violation      `json:"violations"`
-	NViol       int64            `json:"nviol"`
-	Samples     []string         `json:"samples"`
-	TimedOut    bool             `json:"timed_out"`
-	Notes       []string         `json:"notes"`
+	Violations  []violation       `json:"violations"`
+	NViol       int64             `json:"nviol"`
+	Samples     []string          `json:"samples"`
+	TimedOut    bool              `json:"timed_out"`
+	Notes       []string          `json:"notes"`
 }
 
-func (t *T) Tier() string    { return t.tier }
-func (t *T) Thorough() bool  { return t.tier == "thorough" }
-func (t *T) Stopped() bool   { return t.stopped }
+func (t *T) Tier() string   { return t.tier }
+func (t *T) Thorough() bool { return t.tier == "thorough" }
+func (t *T) Stopped() bool  { return t.stopped }
 
 // Progress tells the parent that this worker is alive (use inside long single cases or long
 // pre-computations so that the hang guard does not fire).
@@ -440,9 +440,9 @@ func nWorkers(spec *Spec) int {
 }
 
 type shardState struct {
-	res      workerResult
-	crashes  []violation
-	lastKey  string
+	res     workerResult
+	crashes []violation
+	lastKey string
 }
 
 func runWorker(spec *Spec, tier string, shard, n int, careful bool, skipKeys []string) (res *workerResult, lastKey string, stderrTail string, err error) {
@@ -643,21 +643,41 @@ func crashesAlone(spec *Spec, tier, key string) bool {
 	f.Write(b)
 	f.Close()
 	cmd := exec.Command(os.Args[0], "--replay", f.Name())
+	stdout, _ := cmd.StdoutPipe()
+	if err := cmd.Start(); err != nil {
+		return false
+	}
+	// the case may legitimately run long: it is only taken for hung when it prints nothing
+	// (no Progress heartbeat, no result) for 60 s
+	alive := make(chan struct{}, 1)
+	go func() {
+		sc := bufio.NewScanner(stdout)
+		sc.Buffer(make([]byte, 1<<20), 1<<26)
+		for sc.Scan() {
+			select {
+			case alive <- struct{}{}:
+			default:
+			}
+		}
+	}()
 	done := make(chan error, 1)
-	cmd.Start()
 	go func() { done <- cmd.Wait() }()
-	select {
-	case err := <-done:
-		if err == nil {
-			return false
+	for {
+		select {
+		case err := <-done:
+			if err == nil {
+				return false
+			}
+			if ee, ok := err.(*exec.ExitError); ok && ee.ExitCode() == 0 {
+				return false
+			}
+			return true // exit 1 (violation, e.g. a recovered panic), 2 (fatal error) or a signal
+		case <-alive:
+		case <-time.After(60 * time.Second):
+			cmd.Process.Kill()
+			<-done
+			return true
 		}
-		if ee, ok := err.(*exec.ExitError); ok && (ee.ExitCode() == 0) {
-			return false
-		}
-		return true // exit 1 (violation by panic), 2 (fatal) or signal
-	case <-time.After(25 * time.Second):
-		cmd.Process.Kill()
-		return true
 	}
 }
 
